@@ -143,11 +143,15 @@ P_Sync(r, n) ==
                 ELSE [flags EXCEPT !.deadSync = @ /\ n = 0]
     /\ UNCHANGED <<now, rmeta, fh, ops, cqs, ended, endBufs>>
 
-\* AsyncFd::readable on ring r resolved (ok) / was given up by the consumer after
-\* the upper latency bound plus two ticks (~ok).
-P_Readable(r, ok) ==
+\* AsyncFd::readable on ring r resolved (ok), or is still pending (~ok): either the
+\* consumer gave up after the upper latency bound plus two ticks (grace = 0), or a
+\* reactor task parked in readable() since before the submissions is found still
+\* parked (grace = one tick: completions due only within the last tick may not have
+\* had their wake-up processed yet).
+P_Readable(r, ok, grace) ==
     /\ flags' = [flags EXCEPT !.readable =
-                    @ /\ (IF ok THEN Alive(r) /\ EligSet(r) # {} ELSE (~Alive(r)) \/ DueSet(r) = {})]
+                    @ /\ (IF ok THEN Alive(r) /\ EligSet(r) # {}
+                          ELSE (~Alive(r)) \/ {u \in DueSet(r) : DueHi(ops[u]) <= now - grace} = {})]
     /\ UNCHANGED <<now, rmeta, fh, ops, cqs, rem, ended, endBufs>>
 
 \* CompletionQueue::next returned Some(cqe) on ring r.
